@@ -23,11 +23,22 @@ if echo "$CMD" | grep -q pp_demo; then
   RUN="env -C pp_demo cargo test --offline --test $TEST"
   TESTDIR=pp_demo/tests
 else
+LIBDEMO=""
+if [ -n "$PKG" ] && [ -z "$TEST" ] && echo "$CMD" | grep -q -- '--lib'; then
+  # demonstration is a #[cfg(test)] module of the crate itself (needs the crate's private test fixtures)
+  LIBDEMO=$(echo "$CMD" | sed -n 's/.*--lib \([A-Za-z0-9_]*\).*/\1/p'); TEST=$LIBDEMO
+fi
 [ -n "$PKG" ] && [ -n "$TEST" ] || { echo "cannot parse demo command: $CMD"; exit 2; }
+if [ -n "$LIBDEMO" ]; then
+  cp "$DEMO" crates/$CRATE/src/$LIBDEMO.rs; printf '\n#[cfg(test)]\nmod %s;\n' "$LIBDEMO" >> crates/$CRATE/src/lib.rs
+  RUN="cargo test -p $PKG --offline --lib $LIBDEMO"
+  TESTDIR=crates/$CRATE/src/$LIBDEMO.rs
+else
 mkdir -p crates/$CRATE/tests && cp "$DEMO" crates/$CRATE/tests/$TEST.rs
 for extra in "$SRC"/*.txt "$SRC"/*.json; do case "$(basename $extra)" in demo_cmd.txt|meta.json) ;; *) [ -f "$extra" ] && cp "$extra" crates/$CRATE/tests/ ;; esac; done
 RUN="cargo test -p $PKG --offline --test $TEST $(echo "$CMD" | grep -o -- '--no-default-features' || true) $(echo "$CMD" | grep -o -- '--features [A-Za-z0-9_,]*' || true)"
 TESTDIR=crates/$CRATE/tests
+fi
 fi
 echo "== demo on the unchanged tree: $RUN"
 if $RUN > /tmp/verify_seed_1.log 2>&1; then echo "   passes"; else echo "   FAILS on the unchanged tree"; tail -20 /tmp/verify_seed_1.log; exit 1; fi
@@ -35,6 +46,7 @@ git apply "$SRC/patch.diff" || { echo "patch does not apply"; exit 1; }
 echo "== demo with the change"
 if $RUN > /tmp/verify_seed_2.log 2>&1; then echo "   still passes: not a demonstration"; exit 1; else grep -E "test result|panicked" /tmp/verify_seed_2.log | head -3; fi
 rm -rf "$TESTDIR"; [ -n "$PPDEMO" ] && rm -rf pp_demo
+[ -n "${LIBDEMO:-}" ] && { head -n -3 crates/$CRATE/src/lib.rs > /tmp/verify_seed_lib.rs && cp /tmp/verify_seed_lib.rs crates/$CRATE/src/lib.rs; }
 echo "== baseline suite with the change"
 cargo test --workspace --no-fail-fast --offline > /tmp/verify_seed_3.log 2>&1
 PASSED=$(grep -E "^test result: ok" /tmp/verify_seed_3.log | sed 's/.*ok\. \([0-9]*\) passed.*/\1/' | paste -sd+ | bc)
